@@ -5,6 +5,7 @@ import (
 	"encoding/json"
 	"fmt"
 	"reflect"
+	"sort"
 	"strings"
 
 	js "github.com/google/jsonschema-go/jsonschema"
@@ -200,6 +201,25 @@ func (g *schemaGen) schema(depth int) *js.Schema {
 		}
 		for k := range s.DependencySchemas {
 			delete(s.DependencyStrings, k)
+		}
+		if len(s.Properties) > 0 && ((s.PropertyOrder != nil && r.chance(1, 2)) || r.chance(1, 6)) {
+			// an order at least as long as the property map that still leaves properties out
+			o := []string{}
+			for i := 0; i < len(s.Properties)+r.intn(2); i++ {
+				o = append(o, fmt.Sprintf("ghost%d", i))
+			}
+			pk := make([]string, 0, len(s.Properties))
+			for k := range s.Properties {
+				pk = append(pk, k)
+			}
+			sort.Strings(pk) // (map order must not reach the case)
+			for _, k := range pk {
+				if r.chance(1, 2) {
+					o = append(o, k)
+				}
+			}
+			s.PropertyOrder = shuffled(r, o)
+			g.hasPO = true
 		}
 		seen := map[string]bool{}
 		var po []string
